@@ -206,6 +206,31 @@ func c10Renderings(e *core.Env, r *core.Rand, idx int64, text string, api []obs.
 		}
 		e.Count("terminal_reports_checked", 1)
 	}
+	if idx%40 == 4 && e.KlogBin != "" && !strings.Contains(text, "\x00") {
+		// the same text on stdin of the real binary: line numbers must not depend on where the text comes from
+		b := obs.RunBin(obs.BinEnv{Bin: e.KlogBin, ConfigDir: e.Dir + "/bincfg", Stdin: []byte(text)}, "json")
+		if b.Err == nil {
+			if obs.LooksLikeGoCrash(b.Stdout + b.Stderr) {
+				e.Violation("json-report-panics: binary", trunc(b.Stderr+b.Stdout, 600), w)
+				return
+			}
+			_, errsArr, _, _, jerr := decodeJSONEnvelope(b.Stdout)
+			if jerr != nil || len(errsArr) != len(api) {
+				e.Violation("json-report-differs", fmt.Sprintf("text on stdin of the real binary: %d errors (decode error %v), the parser returns %d", len(errsArr), jerr, len(api)), w)
+				return
+			}
+			for k, raw := range errsArr {
+				o, _ := raw.(map[string]any)
+				ln, _ := obs.JInt(o, "line")
+				col, _ := obs.JInt(o, "column")
+				if ln != api[k].Line || col != api[k].Pos+1 {
+					e.Violation("json-report-differs", fmt.Sprintf("text on stdin of the real binary: error #%d at line %d column %d, the parser says line %d column %d", k, ln, col, api[k].Line, api[k].Pos+1), w)
+					return
+				}
+			}
+			e.Count("stdin_reports_checked", 1)
+		}
+	}
 	for _, pretty := range []bool{idx%16 == 0} {
 		args := append([]string{"json"}, fileArgs...)
 		if pretty {
